@@ -30,7 +30,28 @@ func genForeignStream(r *sim.Rng, format string) *checks.StreamRecipe {
 	return genCompressedStream(r, format, 3000)
 }
 
+// genPresetRoundTrip: compress with one preset, decompress with a smaller one,
+// on data that repeats farther back than the smaller preset's dictionary
+// (256 KiB for -0): the decompressor must size its window from the file.
+func genPresetRoundTrip(r *sim.Rng) *GCase {
+	n := r.Range(270000, 340000)
+	pl := sim.Payload{Kind: "dup", Parts: []sim.Payload{{Kind: "prng", N: n, Seed: r.Uint64()}}}
+	name := sim.Pick(r, []string{"big.bin", "long range.dat"})
+	format := sim.Pick(r, []string{"xz", "xz", "lzma"})
+	c := &GCase{Files: []FileSpec{{Name: name, Mode: 0o644, Kind: "plain", Payload: &pl}}}
+	v1 := Inv{Preset: sim.Pick(r, []int{1, 1, 2, -1}), Files: []string{name}}
+	if format == "lzma" {
+		v1.Format = "lzma"
+	}
+	v2 := Inv{Decompress: true, Preset: 0, Files: []string{name + "." + format}}
+	c.Runs = []Inv{v1, v2}
+	return c
+}
+
 func genC15(r *sim.Rng, tier string, idx int) *GCase {
+	if r.Chance(1, 150) {
+		return genPresetRoundTrip(r)
+	}
 	c := &GCase{}
 	used := map[string]bool{}
 	pickName := func(dash bool) string {
